@@ -529,7 +529,7 @@ fn check_swap_program(t: &mut Tape, ctx: &Ctx) -> Outcome {
 pub fn property() -> Property {
     Property {
         id: "C06",
-        rule: "Cases: proptest-generated sequences of 3-32 direct statements over a universe of 50 names chosen to collide if anything could (A AB A1 A12 B B2 BA C S X, each bare and with ! # % $, as scalars and as arrays of 1-3 dimensions): assignments of type-revealing sentinels (k+1#/3 or a unique string; 1 in 15 of the wrong kind), reads, DIM with bounds {0,1,3,5,10,32767}, implicit dimensioning, ERASE and re-DIM, \
+        rule: "Cases: (operations include FOR..NEXT with a step of a wider type than the counter, SWAP of a variable with the element it subscripts, subscripts that are a zero with a sign, sentinels far below Single range) proptest-generated sequences of 3-32 direct statements over a universe of 50 names chosen to collide if anything could (A AB A1 A12 B B2 BA C S X, each bare and with ! # % $, as scalars and as arrays of 1-3 dimensions): assignments of type-revealing sentinels (k+1#/3 or a unique string; 1 in 15 of the wrong kind), reads, DIM with bounds {0,1,3,5,10,32767}, implicit dimensioning, ERASE and re-DIM, \
 SWAP of same-typed and mixed operands, DEFINT/SNG/DBL/STR over several ranges between writes and reads, CLEAR, subscripts at -1, 0, the bound, bound+1, fractional, and the wrong number of subscripts. \
 Oracle: the reference store after every statement (Integer variables show the floor, Single/Double their own precision, String exact; unassigned = 0 / empty; out of range SUBSCRIPT OUT OF RANGE; second DIM REDIMENSIONED ARRAY; mixed SWAP TYPE MISMATCH with both operands unchanged) and a final sweep that reads every name and element ever touched (aliasing). \
 After a DEFtype, undecorated variables of the named letters whose value has another type read as the new type's default; undecorated variables of other letters may be kept or dropped (observed once, then fixed). \
